@@ -25,103 +25,170 @@ theorem cell_lt {c : Nat} {x : String × AM} (h : lookup c = some x) : c < 65536
 theorem enc_inherent {o : Operand} {r : InstrRow} {c : Nat} (hk : o.kind = .inherent) (hc : r.inh = some c)
     (hl : lookup c = some (opOf r.mnemonic, .inh)) (hs : r.inhSz = opcodeLen c) : Encodes o r .none := by
   have h0 := cell_ne_zero hl (by decide)
-  refine encodes_of (pb := []) (ad := []) hl (pkg := { opCode := opv c, size := r.inhSz, maxSize := r.inhSz })
-    ?_ rfl (by simp) (by simp) (by simp [hs]) (by simp [decodeTail])
+  refine encodes_of (pb := []) hl (pkg := { opCode := opv c, size := r.inhSz, maxSize := r.inhSz })
+    ?_ rfl rfl (by simp) rfl (by simp [hs]) (by simp [decodeTail])
   simp [translateOperand, hk, hc, h0, opVal_ok (cell_lt hl)]
   rfl
 
-/-- immediate class, any cell mode: the additional bytes are those of the operand value -/
+/-- what `translate` returns for an immediate operand: the value itself is the `additional` part -/
+theorem translateOperand_imm {o : Operand} {r : InstrRow} {c : Nat} (hk : o.kind = .immediate) (hc : r.imm = some c)
+    (h0 : c ≠ 0) (hc' : c < 65536) :
+    translateOperand o r = .ok { opCode := opv c, additional := o.value, size := r.immSz, maxSize := r.immSz } := by
+  simp [translateOperand, hk, hc, h0, opVal_ok hc']
+  rfl
+
+theorem translateOperand_dir {o : Operand} {r : InstrRow} {c : Nat} (hk : o.kind = .direct) (hc : r.dir = some c)
+    (hc' : c < 65536) :
+    translateOperand o r = .ok { opCode := opv c, additional := o.value, size := r.dirSz, maxSize := r.dirSz } := by
+  simp [translateOperand, hk, hc, opVal_ok hc']
+  rfl
+
+theorem translateOperand_ext {o : Operand} {r : InstrRow} {c : Nat} (hk : o.kind = .extended) (hc : r.ext = some c)
+    (h0 : c ≠ 0) (hc' : c < 65536) :
+    translateOperand o r = .ok { opCode := opv c, additional := o.value, size := r.extSz, maxSize := r.extSz } := by
+  simp [translateOperand, hk, hc, h0, opVal_ok hc']
+  rfl
+
+/-- immediate class, any cell mode: the operand value is fitted to the field `ad` -/
 theorem enc_imm_gen {o : Operand} {r : InstrRow} {c : Nat} {am : AM} {ad : Bytes} {operand : Spec.MC6809.Operand}
+    {n : Nat} {h : Option Nat} {m : Mode} {neg : Bool} (hp : r.isPseudo = false) (hsp : r.isSpecial = false)
     (hk : o.kind = .immediate) (hc : r.imm = some c) (hl : lookup c = some (opOf r.mnemonic, am)) (ham : am ≠ .dir)
-    (had : emitValue o.value = some ad) (hs : r.immSz = opcodeLen c + ad.length)
+    (hv : o.value = .numeric n h m neg) (hfit : FieldFit n neg ad) (hs : r.immSz = opcodeLen c + ad.length)
     (hdec : decodeTail (opOf r.mnemonic) am (opcodeLen c) ad = some (⟨opOf r.mnemonic, operand⟩, opcodeLen c + ad.length)) :
     Encodes o r operand := by
   have h0 := cell_ne_zero hl ham
-  refine encodes_of (pb := []) (ad := ad) hl
+  refine encodes_of_fit (pb := []) (ad := ad) hp hsp hl
     (pkg := { opCode := opv c, additional := o.value, size := r.immSz, maxSize := r.immSz })
-    ?_ rfl (by simp) had (by simp [hs]) (by simpa using hdec)
+    ?_ rfl rfl .none hv hfit (by simp [hs]) (by simpa using hdec)
   simp [translateOperand, hk, hc, h0, opVal_ok (cell_lt hl)]
   rfl
 
 theorem enc_dir_gen {o : Operand} {r : InstrRow} {c : Nat} {ad : Bytes} {operand : Spec.MC6809.Operand}
+    {n : Nat} {h : Option Nat} {m : Mode} {neg : Bool} (hp : r.isPseudo = false) (hsp : r.isSpecial = false)
     (hk : o.kind = .direct) (hc : r.dir = some c) (hl : lookup c = some (opOf r.mnemonic, .dir))
-    (had : emitValue o.value = some ad) (hs : r.dirSz = opcodeLen c + ad.length)
+    (hv : o.value = .numeric n h m neg) (hfit : FieldFit n neg ad) (hs : r.dirSz = opcodeLen c + ad.length)
     (hdec : decodeTail (opOf r.mnemonic) .dir (opcodeLen c) ad = some (⟨opOf r.mnemonic, operand⟩, opcodeLen c + ad.length)) :
     Encodes o r operand := by
-  refine encodes_of (pb := []) (ad := ad) hl
+  refine encodes_of_fit (pb := []) (ad := ad) hp hsp hl
     (pkg := { opCode := opv c, additional := o.value, size := r.dirSz, maxSize := r.dirSz })
-    ?_ rfl (by simp) had (by simp [hs]) (by simpa using hdec)
+    ?_ rfl rfl .none hv hfit (by simp [hs]) (by simpa using hdec)
   simp [translateOperand, hk, hc, opVal_ok (cell_lt hl)]
   rfl
 
 theorem enc_ext_gen {o : Operand} {r : InstrRow} {c : Nat} {ad : Bytes} {operand : Spec.MC6809.Operand}
+    {n : Nat} {h : Option Nat} {m : Mode} {neg : Bool} (hp : r.isPseudo = false) (hsp : r.isSpecial = false)
     (hk : o.kind = .extended) (hc : r.ext = some c) (hl : lookup c = some (opOf r.mnemonic, .ext))
-    (had : emitValue o.value = some ad) (hs : r.extSz = opcodeLen c + ad.length)
+    (hv : o.value = .numeric n h m neg) (hfit : FieldFit n neg ad) (hs : r.extSz = opcodeLen c + ad.length)
     (hdec : decodeTail (opOf r.mnemonic) .ext (opcodeLen c) ad = some (⟨opOf r.mnemonic, operand⟩, opcodeLen c + ad.length)) :
     Encodes o r operand := by
   have h0 := cell_ne_zero hl (by decide)
-  refine encodes_of (pb := []) (ad := ad) hl
+  refine encodes_of_fit (pb := []) (ad := ad) hp hsp hl
     (pkg := { opCode := opv c, additional := o.value, size := r.extSz, maxSize := r.extSz })
-    ?_ rfl (by simp) had (by simp [hs]) (by simpa using hdec)
+    ?_ rfl rfl .none hv hfit (by simp [hs]) (by simpa using hdec)
   simp [translateOperand, hk, hc, h0, opVal_ok (cell_lt hl)]
   rfl
 
 theorem hi_lo (v : Nat) : v / 256 * 256 + v % 256 = v := by omega
 
-theorem enc_imm8 {o : Operand} {r : InstrRow} {c v : Nat} {h : Option Nat} {m : Mode}
+/-- 8-bit immediate, every value −128..255 whatever its spelling: the two's complement byte -/
+theorem enc_imm8_field {o : Operand} {r : InstrRow} {c n : Nat} {h : Option Nat} {m : Mode} {neg : Bool}
+    (hp : r.isPseudo = false) (hsp : r.isSpecial = false)
     (hk : o.kind = .immediate) (hc : r.imm = some c) (hl : lookup c = some (opOf r.mnemonic, .imm8))
-    (hs : r.immSz = opcodeLen c + 1) (hv : o.value = .numeric v h m false) (hv8 : v < 256)
-    (hh : h = none ∨ h = some 2) : Encodes o r (.imm 8 v) :=
-  enc_imm_gen (ad := [v]) hk hc hl (by decide) (by rw [hv]; exact emit_byte m hv8 hh) (by simpa using hs)
+    (hs : r.immSz = opcodeLen c + 1) (hv : o.value = .numeric n h m neg) (hf : fitsByte n neg = true) :
+    Encodes o r (.imm 8 (byteField n neg)) :=
+  enc_imm_gen (ad := [byteField n neg]) hp hsp hk hc hl (by decide) hv (.byte hf) (by simpa using hs)
     (by simp [decodeTail])
 
-theorem enc_imm8_neg {o : Operand} {r : InstrRow} {c i : Nat} {h : Option Nat} {m : Mode}
-    (hk : o.kind = .immediate) (hc : r.imm = some c) (hl : lookup c = some (opOf r.mnemonic, .imm8))
-    (hs : r.immSz = opcodeLen c + 1) (hv : o.value = .numeric i h m true) (h1 : 1 ≤ i) (h2 : i ≤ 128)
-    (hh : h = none ∨ h = some 2) : Encodes o r (.imm 8 (256 - i)) :=
-  enc_imm_gen (ad := [256 - i]) hk hc hl (by decide) (by rw [hv]; exact emit_neg8 m h1 h2 hh) (by simpa using hs)
-    (by simp [decodeTail])
-
-theorem enc_imm16 {o : Operand} {r : InstrRow} {c v : Nat} {h : Option Nat} {m : Mode}
+/-- 16-bit immediate, every value −32768..65535 whatever its spelling -/
+theorem enc_imm16_field {o : Operand} {r : InstrRow} {c n : Nat} {h : Option Nat} {m : Mode} {neg : Bool}
+    (hp : r.isPseudo = false) (hsp : r.isSpecial = false)
     (hk : o.kind = .immediate) (hc : r.imm = some c) (hl : lookup c = some (opOf r.mnemonic, .imm16))
-    (hs : r.immSz = opcodeLen c + 2) (hv : o.value = .numeric v h m false) (hv16 : v < 65536)
-    (hh : h = some 4 ∨ (h = none ∧ 256 ≤ v)) : Encodes o r (.imm 16 v) :=
-  enc_imm_gen (ad := [v / 256, v % 256]) hk hc hl (by decide) (by rw [hv]; exact emit_word m hv16 hh)
+    (hs : r.immSz = opcodeLen c + 2) (hv : o.value = .numeric n h m neg) (hf : fitsWord n neg = true) :
+    Encodes o r (.imm 16 (wordField n neg)) :=
+  enc_imm_gen (ad := [wordField n neg / 256, wordField n neg % 256]) hp hsp hk hc hl (by decide) hv (.word hf)
     (by simpa using hs) (by simp [decodeTail, hi_lo])
 
-theorem enc_imm16_neg {o : Operand} {r : InstrRow} {c i : Nat} {h : Option Nat} {m : Mode}
-    (hk : o.kind = .immediate) (hc : r.imm = some c) (hl : lookup c = some (opOf r.mnemonic, .imm16))
-    (hs : r.immSz = opcodeLen c + 2) (hv : o.value = .numeric i h m true) (h1 : 129 ≤ i) (h2 : i ≤ 32768)
-    (hh : h = some 4 ∨ (h = none ∧ 256 ≤ i)) : Encodes o r (.imm 16 (65536 - i)) :=
-  enc_imm_gen (ad := [(65536 - i) / 256, (65536 - i) % 256]) hk hc hl (by decide)
-    (by rw [hv]; exact emit_neg16 m h1 h2 hh) (by simpa using hs) (by simp [decodeTail, hi_lo])
+theorem enc_imm8 {o : Operand} {r : InstrRow} {c v : Nat} {h : Option Nat} {m : Mode}
+    (hp : r.isPseudo = false) (hsp : r.isSpecial = false)
+    (hk : o.kind = .immediate) (hc : r.imm = some c) (hl : lookup c = some (opOf r.mnemonic, .imm8))
+    (hs : r.immSz = opcodeLen c + 1) (hv : o.value = .numeric v h m false) (hv8 : v < 256) : Encodes o r (.imm 8 v) := by
+  have := enc_imm8_field hp hsp hk hc hl hs hv (by simp [fitsByte]; omega)
+  simpa [byteField] using this
 
-theorem enc_direct {o : Operand} {r : InstrRow} {c v : Nat} {m : Mode}
+theorem enc_imm8_neg {o : Operand} {r : InstrRow} {c i : Nat} {h : Option Nat} {m : Mode}
+    (hp : r.isPseudo = false) (hsp : r.isSpecial = false)
+    (hk : o.kind = .immediate) (hc : r.imm = some c) (hl : lookup c = some (opOf r.mnemonic, .imm8))
+    (hs : r.immSz = opcodeLen c + 1) (hv : o.value = .numeric i h m true) (h1 : 1 ≤ i) (h2 : i ≤ 128) :
+    Encodes o r (.imm 8 (256 - i)) := by
+  have := enc_imm8_field hp hsp hk hc hl hs hv (by simp [fitsByte]; omega)
+  have e : byteField i true = 256 - i := by simp only [byteField, if_true]; omega
+  rwa [e] at this
+
+theorem enc_imm16 {o : Operand} {r : InstrRow} {c v : Nat} {h : Option Nat} {m : Mode}
+    (hp : r.isPseudo = false) (hsp : r.isSpecial = false)
+    (hk : o.kind = .immediate) (hc : r.imm = some c) (hl : lookup c = some (opOf r.mnemonic, .imm16))
+    (hs : r.immSz = opcodeLen c + 2) (hv : o.value = .numeric v h m false) (hv16 : v < 65536) :
+    Encodes o r (.imm 16 v) := by
+  have := enc_imm16_field hp hsp hk hc hl hs hv (by simp [fitsWord]; omega)
+  simpa [wordField] using this
+
+theorem enc_imm16_neg {o : Operand} {r : InstrRow} {c i : Nat} {h : Option Nat} {m : Mode}
+    (hp : r.isPseudo = false) (hsp : r.isSpecial = false)
+    (hk : o.kind = .immediate) (hc : r.imm = some c) (hl : lookup c = some (opOf r.mnemonic, .imm16))
+    (hs : r.immSz = opcodeLen c + 2) (hv : o.value = .numeric i h m true) (h1 : 1 ≤ i) (h2 : i ≤ 32768) :
+    Encodes o r (.imm 16 (65536 - i)) := by
+  have := enc_imm16_field hp hsp hk hc hl hs hv (by simp [fitsWord]; omega)
+  have e : wordField i true = 65536 - i := by simp only [wordField, if_true]; omega
+  rwa [e] at this
+
+theorem enc_direct {o : Operand} {r : InstrRow} {c v : Nat} {h : Option Nat} {m : Mode}
+    (hp : r.isPseudo = false) (hsp : r.isSpecial = false)
     (hk : o.kind = .direct) (hc : r.dir = some c) (hl : lookup c = some (opOf r.mnemonic, .dir))
-    (hs : r.dirSz = opcodeLen c + 1) (hv : o.value = .numeric v (some 2) m false) (hv8 : v < 256) :
-    Encodes o r (.dir v) :=
-  enc_dir_gen (ad := [v]) hk hc hl (by rw [hv]; exact emit_hint2 m hv8) (by simpa using hs) (by simp [decodeTail])
+    (hs : r.dirSz = opcodeLen c + 1) (hv : o.value = .numeric v h m false) (hv8 : v < 256) :
+    Encodes o r (.dir v) := by
+  have hf : fitsByte v false = true := by simp [fitsByte]; omega
+  have := enc_dir_gen (ad := [byteField v false]) (operand := .dir v) hp hsp hk hc hl hv (.byte hf) (by simpa using hs)
+    (by simp [decodeTail, byteField])
+  exact this
 
 theorem enc_extended {o : Operand} {r : InstrRow} {c v : Nat} {h : Option Nat} {m : Mode}
+    (hp : r.isPseudo = false) (hsp : r.isSpecial = false)
     (hk : o.kind = .extended) (hc : r.ext = some c) (hl : lookup c = some (opOf r.mnemonic, .ext))
-    (hs : r.extSz = opcodeLen c + 2) (hv : o.value = .numeric v h m false) (hv16 : v < 65536)
-    (hh : h = some 4 ∨ (h = none ∧ 256 ≤ v)) : Encodes o r (.ext v) :=
-  enc_ext_gen (ad := [v / 256, v % 256]) hk hc hl (by rw [hv]; exact emit_word m hv16 hh) (by simpa using hs)
-    (by simp [decodeTail, hi_lo])
+    (hs : r.extSz = opcodeLen c + 2) (hv : o.value = .numeric v h m false) (hv16 : v < 65536) : Encodes o r (.ext v) := by
+  have hf : fitsWord v false = true := by simp [fitsWord]; omega
+  exact enc_ext_gen (ad := [wordField v false / 256, wordField v false % 256]) (operand := .ext v) hp hsp hk hc hl hv
+    (.word hf) (by simpa using hs) (by simp [decodeTail, hi_lo, wordField])
 
-/-! ### indexed: the generic assembly step -/
+/-! ### indexed: the generic assembly steps -/
 
-/-- an indexed-mode package: post byte `p`, additional bytes `ad` -/
-theorem enc_idx_gen {o : Operand} {r : InstrRow} {c p : Nat} {pkg : Pkg} {ad : Bytes} {i : Idx}
+/-- an indexed-mode package without additional bytes: post byte `p` -/
+theorem enc_idx_gen {o : Operand} {r : InstrRow} {c p : Nat} {pkg : Pkg} {i : Idx}
     (hl : lookup c = some (opOf r.mnemonic, .idx))
     (ht : translateOperand o r = .ok pkg)
+    (hnr : pkg.needsRes = false)
     (hop : pkg.opCode = opv c)
     (hpb : pkg.postByte = .numeric p (some 2) .direct false) (hp : p < 256)
-    (had : emitValue pkg.additional = some ad)
+    (had : pkg.additional = .none)
+    (hsz : pkg.size = opcodeLen c + 1)
+    (hdec : decodePostByte [p] = some (i, 1)) :
+    Encodes o r (.idx i) := by
+  refine encodes_of (pb := [p]) hl ht hnr hop (by rw [hpb]; exact emit_hint2 _ hp) had (by simpa using hsz) ?_
+  simp [decodeTail, hdec]
+
+/-- an indexed-mode package with a numeric field after post byte `p` -/
+theorem enc_idx_fit {o : Operand} {r : InstrRow} {c p : Nat} {pkg : Pkg} {ad : Bytes} {i : Idx}
+    {n : Nat} {h : Option Nat} {m : Mode} {neg : Bool} (hpr : r.isPseudo = false) (hsp : r.isSpecial = false)
+    (hl : lookup c = some (opOf r.mnemonic, .idx))
+    (ht : translateOperand o r = .ok pkg)
+    (hnr : pkg.needsRes = false)
+    (hop : pkg.opCode = opv c)
+    (hpb : pkg.postByte = .numeric p (some 2) .direct false) (hp : p < 256)
+    (had : pkg.additional = .numeric n h m neg) (hfit : FieldFit n neg ad)
     (hsz : pkg.size = opcodeLen c + 1 + ad.length)
     (hdec : decodePostByte (p :: ad) = some (i, 1 + ad.length)) :
     Encodes o r (.idx i) := by
-  refine encodes_of (pb := [p]) (ad := ad) hl ht hop (by rw [hpb]; exact emit_hint2 _ hp) had (by simpa using hsz) ?_
+  refine encodes_of_fit (pb := [p]) (ad := ad) hpr hsp hl ht hnr hop (by rw [hpb]; exact .byte hp) had hfit
+    (by simpa using hsz) ?_
   simp [decodeTail, hdec, Nat.add_assoc]
 
 /-! ### `[address]` -/
@@ -135,18 +202,21 @@ theorem translateExtInd_numeric {o : Operand} {r : InstrRow} {c : Nat}
   simp [translateExtIndirect, hc, h0, opVal_ok hc', hn, h9]
   rfl
 
+/-- `[address]`, every address 0..65535 whatever its spelling: always two address bytes -/
 theorem enc_extInd {o : Operand} {r : InstrRow} {c v : Nat} {h : Option Nat} {m : Mode}
+    (hp : r.isPseudo = false) (hsp : r.isSpecial = false)
     (hk : o.kind = .extIndirect) (hc : r.ind = some c) (hl : lookup c = some (opOf r.mnemonic, .idx))
-    (hs : r.indSz = opcodeLen c + 1) (hv : o.value = .numeric v h m false) (hv16 : v < 65536)
-    (hh : h = some 4 ∨ (h = none ∧ 256 ≤ v)) : Encodes o r (.idx (.extInd v)) := by
+    (hs : r.indSz = opcodeLen c + 1) (hv : o.value = .numeric v h m false) (hv16 : v < 65536) :
+    Encodes o r (.idx (.extInd v)) := by
   have h0 := cell_ne_zero hl (by decide)
   have ht := translateExtInd_numeric hc h0 (cell_lt hl) (o := o) (by rw [hv]; rfl)
   have ht' : translateOperand o r = translateExtIndirect o r := by simp [translateOperand, hk]
   rw [ht] at ht'
-  have had : emitValue o.value = some [v / 256, v % 256] := by rw [hv]; exact emit_word m hv16 hh
+  have hf : fitsWord v false = true := by simp [fitsWord]; omega
   have hdec : decodePostByte [0x9F, v / 256, v % 256] = some (.extInd v, 3) := by
     simp [decodePostByte_cons, hi_lo]
-  exact enc_idx_gen (p := 0x9F) (ad := [v / 256, v % 256]) hl ht' rfl rfl (by omega) had (by simp [hs]) hdec
+  exact enc_idx_fit (p := 0x9F) (ad := [wordField v false / 256, wordField v false % 256]) hp hsp hl ht' rfl rfl rfl
+    (by omega) hv (.word hf) (by simp [hs]) (by simpa [wordField] using hdec)
 
 /-! ### indexed without offset -/
 
@@ -177,8 +247,7 @@ theorem enc_indexed_noOff {o : Operand} {r : InstrRow} {c : Nat} {right : Str} {
     Encodes o r (.idx i) := by
   have h0 := cell_ne_zero hl (by decide)
   have ht := translateIndexed_noOff hc h0 (cell_lt hl) hle hr hp
-  exact enc_idx_gen (ad := []) hl (by simpa [translateOperand, hk] using ht) rfl rfl hp (by simp) (by simp [hs])
-    (by simpa using hdec)
+  exact enc_idx_gen hl (by simpa [translateOperand, hk] using ht) rfl rfl rfl hp rfl (by simp [hs]) hdec
 
 /-- the post byte `ExtendedIndexedOperand.translate` computes for `[,R]`, `[,R++]`, `[,--R]` -/
 def extNoOffPost (right : Str) : Nat :=
@@ -226,8 +295,7 @@ theorem enc_extInd_noOff {o : Operand} {r : InstrRow} {c : Nat} {right : Str} {i
     Encodes o r (.idx i) := by
   have h0 := cell_ne_zero hl (by decide)
   have ht := translateExtInd_noOff hc h0 (cell_lt hl) hna hnn hle hr hbad hp
-  exact enc_idx_gen (ad := []) hl (by simpa [translateOperand, hk] using ht) rfl rfl hp (by simp) (by simp [hs])
-    (by simpa using hdec)
+  exact enc_idx_gen hl (by simpa [translateOperand, hk] using ht) rfl rfl rfl hp rfl (by simp [hs]) hdec
 
 /-! ### accumulator offsets -/
 
@@ -251,8 +319,7 @@ theorem enc_indexed_acc {o : Operand} {r : InstrRow} {c : Nat} {l right : Str} {
     Encodes o r (.idx i) := by
   have h0 := cell_ne_zero hlk (by decide)
   have ht := translateIndexed_acc hc h0 (cell_lt hlk) hl habd hr hp
-  exact enc_idx_gen (ad := []) hlk (by simpa [translateOperand, hk] using ht) rfl rfl hp (by simp) (by simp [hs])
-    (by simpa using hdec)
+  exact enc_idx_gen hlk (by simpa [translateOperand, hk] using ht) rfl rfl rfl hp rfl (by simp [hs]) hdec
 
 def accCodeInd (l : Str) : Nat := if l == ['A'] then 0x16 else if l == ['B'] then 0x15 else 0x1B
 
@@ -277,7 +344,6 @@ theorem enc_extInd_acc {o : Operand} {r : InstrRow} {c : Nat} {l right : Str} {i
     Encodes o r (.idx i) := by
   have h0 := cell_ne_zero hlk (by decide)
   have ht := translateExtInd_acc hc h0 (cell_lt hlk) hna hnn hl habd hr hp
-  exact enc_idx_gen (ad := []) hlk (by simpa [translateOperand, hk] using ht) rfl rfl hp (by simp) (by simp [hs])
-    (by simpa using hdec)
+  exact enc_idx_gen hlk (by simpa [translateOperand, hk] using ht) rfl rfl rfl hp rfl (by simp [hs]) hdec
 
 end CoCo.Asm
